@@ -39,7 +39,7 @@ def world():
     o.s = 2.0
     o1, o2 = Obj(), Obj()
     o1.s, o2.s = 8.5, -4.5
-    d = {"a": 3.0, "b": 5.0, "c": -2.0, "z": 7.0, "t": 0.0, "n0": {"p": 1.5, "q": 4.0},
+    d = {"a": 3.0, "b": 5.0, "c": -2.0, "z": 7.0, "t": 0.0, "n0": {"p": 1.5, "q": 4.0}, "p": 12.5, "q": -6.5,
          "l": [1.0, 2.0, 3.0], "o": o, "i0": 1, "k0": "p", "s0": 2,
          # containers of containers: a computed key in the MIDDLE of an access chain
          "tab": [{"p": 10.0, "q": 11.0}, {"p": 20.0, "q": 21.0}, {"p": 30.0, "q": 31.0}],
@@ -68,7 +68,7 @@ OBJS = E.loc("d", ("i", "objs"))
 CHAIN_ITEM = ["item", ["item", TAB, I0], E.lit("p")]              # d['tab'][d['i0']]['p']
 CHAIN_ATTR = ["cattr", ["item", OBJS, K0], E.lit("s")]            # d['objs'][d['k0']].s
 CHAIN_EXPR = ["item", ["item", TAB, ["bin", "-", S0, I0]], E.lit("q")]   # d['tab'][d['s0'] - d['i0']]['q']
-LEAVES = [E.loc("d", ("i", "tab"), ("i", 1), ("i", "p")), E.loc("d", ("i", "tab"), ("i", 2), ("i", "p")),
+LEAVES = [E.loc("d", ("i", "p")), E.loc("d", ("i", "q")), E.loc("d", ("i", "tab"), ("i", 1), ("i", "p")), E.loc("d", ("i", "tab"), ("i", 2), ("i", "p")),
           E.loc("d", ("i", "tab"), ("i", 1), ("i", "q")), E.loc("d", ("i", "objs"), ("i", "p"), ("a", "s")),
           E.loc("d", ("i", "objs"), ("i", "q"), ("a", "s")), A, B, E.loc("d", ("i", "c")), Z, NP, E.loc("d", ("i", "n0"), ("i", "q")), OS,
           E.loc("d", ("i", "l"), ("i", 0)), L1, E.loc("d", ("i", "l"), ("i", 2)), I0, K0, S0]
@@ -81,6 +81,7 @@ FILLERS = {
     "nested-2": ["bi", "abs", ["bin", "*", E.lit(2), NP], []],
     "nested-3": ["bin", "+", E.lit(1), ["un", "-", ["call", E.loc("F", ("i", "sq")), [L1], []]]],
     "computed-item": ["item", LC, I0],
+    "computed-item-on-root": ["item", DROOT, K0],                  # d[d['k0']]: computed key on a top-level container
     "computed-mid-chain(item)": CHAIN_ITEM,
     "computed-mid-chain(attr)": CHAIN_ATTR,
     "computed-mid-chain(expr key)": CHAIN_EXPR,
@@ -148,7 +149,17 @@ def discover():
     return sorted(out)
 
 
-def check_term(ast, label, behavioural=True):
+K5_SIG = "C05:K5-computed-key-on-top-level-container"
+
+
+def root_computed(ast):
+    """does the term select a member of a TOP-LEVEL container with a computed key (d[d['k0']])?"""
+    if ast[0] == "item" and ast[1][0] == "loc" and not ast[1][2] and E.has_ref(ast[2]):
+        return True
+    return any(root_computed(s) for s in E.subterms(ast))
+
+
+def check_term(ast, label, behavioural=True, k5=False):
     """-> (Failure|None, nontrivial_info)"""
     roots, refs, m = world()
     try:
@@ -176,6 +187,10 @@ def check_term(ast, label, behavioural=True):
                        {"term": E.render(ast), "missing": missing, "extra": extra}), "x"
     if not behavioural:
         return None, "structural"
+    if root_computed(ast) and not k5:
+        # known finding K5: the owner of such an access is the top-level container, which is never a dependency, so
+        # assigning the selected member triggers nothing.  The structural clause above still applies.
+        return None, "structural-only(K5 class)"
     # ---- behavioural clause
     try:
         v0 = ("ok", E.mirror(ast, roots))
@@ -210,6 +225,9 @@ def check_term(ast, label, behavioural=True):
             else:
                 ok = bool(chain & got)
             if not ok:
+                if k5:
+                    return Failure(K5_SIG, {"term": E.render(ast), "location": E.loc_str(key),
+                                            "reported": sorted(map(show_dep, got))}), "x"
                 return Failure(f"C05:value-follows-unreported-location:{culprit(ast, refs)}",
                                {"term": E.render(ast), "location": E.loc_str(key),
                                 "reported": sorted(map(show_dep, got))}), "x"
@@ -282,8 +300,10 @@ def run_enumeration(ctx):
         if i % ctx.nshards != ctx.shard:
             continue
         f, info = check_term(ast, cn)
+        if info.startswith("structural-only"):
+            ctx.stats.excluded["behavioural clause skipped: computed key on a top-level container (known finding K5)"] += 1
         nt = (not slot.startswith("lhs") and not slot.startswith("arg")) or fname in (
-            "nested-2", "nested-3", "computed-item") or fname.startswith("computed-mid-chain")
+            "nested-2", "nested-3", "computed-item", "computed-item-on-root") or fname.startswith("computed-mid-chain")
         ctx.stats.case({"class": cn, "slot": slot, "filler": fname, "term": E.render(ast)}, nt,
                        ["enum", f"class:{cn}", f"filler:{fname}", f"outcome:{info}"])
         if f:
@@ -291,7 +311,7 @@ def run_enumeration(ctx):
     ctx.stats.exhaustive["node class x operand slot x filler shape"] = True
 
 
-TG = G.TermGen(LEAVES[:15] + [CHAIN_ITEM, CHAIN_ATTR, CHAIN_EXPR], [S0], {k: E.loc("F", ("i", k)) for k in ("add2", "scale", "sq", "hyp")},
+TG = G.TermGen(LEAVES[:17] + [CHAIN_ITEM, CHAIN_ATTR, CHAIN_EXPR, ["item", DROOT, K0]], [S0], {k: E.loc("F", ("i", k)) for k in ("add2", "scale", "sq", "hyp")},
                [(LC, I0), (N0, K0)], lits=G.numbers(),
                ops=list(E.BINOPS), builtins=["abs", "round", "floor", "ceil", "trunc"], unary=list(E.UNOPS),
                allow_eq=True, allow_divmod=True)
@@ -302,6 +322,8 @@ def run_trees(ctx):
 
     def body(ast):
         f, info = check_term(ast, "tree")
+        if info.startswith("structural-only"):
+            ctx.stats.excluded["behavioural clause skipped: computed key on a top-level container (known finding K5)"] += 1
         ctx.stats.case({"term": E.render(ast)}, E.n_ops(ast) >= 2, ["tree", f"outcome:{info}"])
         if f is not None:
             f.case = {"kind": "term", "ast": ast}
@@ -319,5 +341,5 @@ def replay(ctx, case):
         table = slot_table()
         unc = [c for c in discover() if c not in table and c not in ABSTRACT]
         return Failure("C05:uncovered-node-class", {"classes": unc}) if unc else None
-    f, _ = check_term(case["ast"], "replay")
+    f, _ = check_term(case["ast"], "replay", k5=bool(case.get("k5")))
     return f
